@@ -67,6 +67,21 @@ func akaDeriveAfter(a []string) string {
 	return "ok " + hx(res) + " " + hx(ue.Kamf) + " " + hx(ue.KnasEnc[:]) + " " + hx(ue.KnasInt[:])
 }
 
+// akaDeriveTwice: the SAME UE context authenticates twice (re-authentication): first with the arguments of the second half
+// of the op line, then with the first 12 — the second derivation must be what a fresh context would derive from ITS arguments
+// (nothing remembered from the first: RES*, keys, RAND).
+func akaDeriveTwice(a []string) string {
+	ue := tglib.NewRanUeContext(aStr(a[0]), 1, a8(a[1]), a8(a[2]))
+	first := a[12:]
+	subs1 := tglib.GetAuthSubscription(aStr(first[4]), aStr(first[5]), aStr(first[6]))
+	subs1.AuthenticationManagementField = aStr(first[3])
+	ue.DeriveRESstarAndSetKey(subs1, a16(first[7]), xb(first[8]), aStr(first[9]), aStr(first[10]), aStr(first[11]))
+	subs := tglib.GetAuthSubscription(aStr(a[4]), aStr(a[5]), aStr(a[6]))
+	subs.AuthenticationManagementField = aStr(a[3])
+	res := ue.DeriveRESstarAndSetKey(subs, a16(a[7]), xb(a[8]), aStr(a[9]), aStr(a[10]), aStr(a[11]))
+	return "ok " + hx(res) + " " + hx(ue.Kamf) + " " + hx(ue.KnasEnc[:]) + " " + hx(ue.KnasInt[:])
+}
+
 // akaDeriveChild runs the op in a child process so that fatal.Fatalf's os.Exit(1) can be observed.
 func akaDeriveChild(a []string) string {
 	cmd := exec.Command(os.Args[0], "run")
@@ -233,6 +248,7 @@ func init() {
 	register("aka", akaDomain)
 	registerOp("aka_derive", akaDerive)
 	registerOp("aka_derive_after", akaDeriveAfter)
+	registerOp("aka_derive_twice", akaDeriveTwice)
 	registerOp("aka_derive_x", func(a []string) string {
 		if os.Getenv("VERIF_CORR_CHILD") != "" {
 			return akaDerive(a)
@@ -371,6 +387,24 @@ func akaDomain(e *emitter) {
 		if c%3 == 0 {
 			e.op("aka_derive", base(opcS, e.hexStr(e.bytes(16)))...)
 		}
+		if c%4 == 2 {
+			// re-authentication of the same UE context: the same RAND with another AUTN, another serving network, another key
+			b1 := base(opcS, "")
+			v := append([]string{}, b1...)
+			switch e.rng.Intn(3) {
+			case 0:
+				v[7] = hx(e.bytes(16)) // AUTN
+			case 1:
+				mnc2, mcc2 := e.digits(2+e.rng.Intn(2)), e.digits(3)
+				if sn2, ok := akaSnName(mnc2, mcc2); ok {
+					v[9], v[10], v[11] = sx(sn2), sx(mnc2), sx(mcc2)
+				}
+			default:
+				v[4] = sx(e.hexStr(e.bytes(16))) // K
+			}
+			e.op("aka_derive_twice", append(b1, v...)...)
+			e.op("aka_derive_twice", append(v, b1...)...)
+		}
 		if c%4 == 1 {
 			// another subscriber (other K / OPc / OP) is created before this one authenticates
 			k2, op2 := e.hexStr(e.bytes(16)), e.hexStr(e.bytes(16))
@@ -410,7 +444,11 @@ func akaDomain(e *emitter) {
 		}
 		if c%25 == 0 {
 			x := base(opcS, opS)
-			switch (c / 25) % 9 {
+			switch (c / 25) % 11 {
+			case 9:
+				x[5] = sx(opcS[:30] + "zz") // OPc not hexadecimal
+			case 10:
+				x[5], x[6] = sx(""), sx("g"+opS[1:]) // OP not hexadecimal
 			case 0:
 				x[3] = sx("80zz") // AMF not hex
 			case 1:
